@@ -9,9 +9,13 @@ baseline (``baseline_functions.json``) are inlined back into their call sites on
 * statement helpers are inlined at ``return helper(...)`` (tail call) and ``name = helper(...)`` / ``a, b = helper(...)``
   sites when every ``return`` of the helper is in tail position.
 
-Only calls of the forms ``self.h(...)``, ``cls.h(...)``, ``ClassName.h(...)`` (methods of the enclosing class) and
-``h(...)`` (module-level function of the same module) are considered; recursion, generators, nested defs,
-*args/**kwargs and defaulted parameters left unfilled are not inlined.  Nothing in /repo is modified.
+Calls are resolved package-wide from the syntax: ``self.h(...)``/``cls.h(...)`` through the enclosing class and its
+bases, ``ClassName.h(...)`` for class/static methods of any package class, ``h(...)`` for module-level functions (same
+module first, else a unique one in the package); new read-only *properties* whose body is an expression are inlined at
+``self.p`` and - when the name is unique in the package - at ``<expr>.p``.  Statement helpers may contain ``match``
+statements and early returns (they are first rewritten into a strict tree); they are inlined at ``return h()``,
+``x = h()``, ``a, b = h()`` and bare ``h()`` statements.  Recursion, generators, nested defs, *args/**kwargs,
+defaulted parameters and helpers that re-bind a parameter are not inlined.  Nothing in /repo is modified.
 """
 
 from __future__ import annotations
@@ -53,57 +57,63 @@ def _simple_params(fn: ast.FunctionDef, is_method: bool) -> list[str] | None:
     return names
 
 
-def _tail_returns_only(stmts: list[ast.stmt]) -> bool:
-    """Every `return` is the last statement of its branch, and every branch ends in a return or raise."""
-    if not stmts:
-        return False
-    for s in stmts[:-1]:
-        if any(isinstance(n, (ast.Return, ast.Yield, ast.YieldFrom)) for n in ast.walk(s)):
-            # a return inside an `if` that is not last is an early return: allowed only if that `if` has no else
-            # and we can treat the rest as the else branch - handled by _to_tree
-            pass
-    return True
+MAX_TREE_NODES = 6000
 
 
-def _to_tree(stmts: list[ast.stmt]) -> list[ast.stmt] | None:
-    """Rewrite early-return style into a strict tree: ``if c: return a`` + rest  ->  ``if c: return a`` else: rest.
+def _irrefutable(case: ast.match_case) -> bool:
+    p = case.pattern
+    return case.guard is None and isinstance(p, ast.MatchAs) and p.pattern is None
 
-    Returns None when the body has loops/try/with containing returns, or falls off the end on some branch."""
+
+def _to_tree(stmts: list[ast.stmt], budget: list[int] | None = None) -> list[ast.stmt] | None:
+    """Rewrite a function-body suffix into a strict tree in which every branch ends in ``return``/``raise``:
+    ``if c: return a`` + rest  ->  ``if c: return a`` ``else: rest``; a ``match`` followed by more statements gets the
+    rest appended to every case that falls through (and a wildcard case holding the rest if it has none).  Falling off
+    the end is ``return None``.  None when a loop/try/with contains a return, or the tree grows unreasonably."""
+    budget = budget if budget is not None else [MAX_TREE_NODES]
     out: list[ast.stmt] = []
     for i, s in enumerate(stmts):
-        has_ret = any(isinstance(n, ast.Return) for n in ast.walk(s))
-        if not has_ret:
-            if isinstance(s, (ast.FunctionDef, ast.ClassDef, ast.AsyncFunctionDef)):
-                return None
-            out.append(s)
-            continue
-        if isinstance(s, ast.Return):
+        budget[0] -= 1
+        if budget[0] < 0:
+            return None
+        if isinstance(s, (ast.FunctionDef, ast.ClassDef, ast.AsyncFunctionDef)):
+            return None
+        if isinstance(s, (ast.Return, ast.Raise)):
             out.append(s)
             return out  # anything after is dead
+        if not any(isinstance(n, ast.Return) for n in ast.walk(s)):
+            out.append(s)
+            continue
+        rest = stmts[i + 1 :]
         if isinstance(s, ast.If):
-            body = _to_tree(s.body)
-            rest = stmts[i + 1 :]
-            orelse_src = s.orelse if s.orelse else []
-            body_ends = body is not None and body and isinstance(body[-1], (ast.Return, ast.Raise))
-            if body is None:
+            body = _to_tree(list(s.body) + copy.deepcopy(rest), budget)
+            orelse = _to_tree(list(s.orelse) + copy.deepcopy(rest), budget)
+            if body is None or orelse is None:
                 return None
-            if body_ends:
-                orelse = _to_tree(list(orelse_src) + list(rest))
-                if orelse is None:
-                    return None
-                new = ast.If(test=s.test, body=body, orelse=orelse)
-                out.append(ast.copy_location(new, s))
-                return out
-            # body falls through: the else branch must fall through as well, continue with rest
-            orelse = _to_tree(list(orelse_src)) if orelse_src else []
-            if orelse is None or (orelse and isinstance(orelse[-1], (ast.Return, ast.Raise))):
-                return None
-            return None
+            out.append(ast.copy_location(ast.If(test=s.test, body=body, orelse=orelse), s))
+            return out
         if isinstance(s, ast.Match):
-            return None
+            cases = []
+            for c in s.cases:
+                body = _to_tree(list(c.body) + copy.deepcopy(rest), budget)
+                if body is None:
+                    return None
+                cases.append(ast.match_case(pattern=c.pattern, guard=c.guard, body=body))
+            if not any(_irrefutable(c) for c in s.cases):
+                tail = _to_tree(copy.deepcopy(rest), budget)
+                if tail is None:
+                    return None
+                cases.append(ast.match_case(pattern=ast.MatchAs(pattern=None, name=None), guard=None, body=tail))
+            out.append(ast.copy_location(ast.Match(subject=s.subject, cases=cases), s))
+            return out
         return None
-    # fell off the end without return
-    return None
+    # fell off the end: an implicit ``return None``
+    r = ast.Return(value=ast.Constant(None))
+    r._implicit = True  # type: ignore[attr-defined]
+    if stmts:
+        ast.copy_location(r, stmts[-1])
+    out.append(r)
+    return out
 
 
 def _ends_closed(stmts: list[ast.stmt]) -> bool:
@@ -114,12 +124,14 @@ def _ends_closed(stmts: list[ast.stmt]) -> bool:
         return True
     if isinstance(last, ast.If):
         return bool(last.orelse) and _ends_closed(last.body) and _ends_closed(last.orelse)
+    if isinstance(last, ast.Match):
+        return any(_irrefutable(c) for c in last.cases) and all(_ends_closed(c.body) for c in last.cases)
     return False
 
 
 def _as_expression(stmts: list[ast.stmt]) -> ast.expr | None:
     """An if/else tree of plain returns as one (conditional) expression."""
-    if len(stmts) == 1 and isinstance(stmts[0], ast.Return) and stmts[0].value is not None:
+    if len(stmts) == 1 and isinstance(stmts[0], ast.Return) and stmts[0].value is not None and not getattr(stmts[0], "_implicit", False):
         return stmts[0].value
     if len(stmts) == 1 and isinstance(stmts[0], ast.If) and stmts[0].orelse:
         a, b = _as_expression(stmts[0].body), _as_expression(stmts[0].orelse)
@@ -144,6 +156,50 @@ class _Subst(ast.NodeTransformer):
         return node
 
 
+_COMPS = (ast.ListComp, ast.SetComp, ast.DictComp, ast.GeneratorExp)
+
+
+class _FreshenComprehensions(ast.NodeTransformer):
+    """Give comprehension-scoped variables names of their own (``x`` -> ``x__cN``): they live in a nested scope, so
+    they neither re-bind a parameter of the enclosing function nor may they be touched by substituting for it."""
+
+    def __init__(self, counter: list[int]):
+        self.counter = counter
+
+    def _comp(self, node):
+        # inner comprehensions first
+        self.generic_visit(node)
+        bound: set[str] = set()
+        for g in node.generators:
+            bound |= {n.id for n in ast.walk(g.target) if isinstance(n, ast.Name)}
+        if not bound:
+            return node
+        self.counter[0] += 1
+        suffix = f"__c{self.counter[0]}"
+
+        class R(ast.NodeTransformer):
+            def visit_Name(self, n):
+                if n.id in bound:
+                    return ast.copy_location(ast.Name(n.id + suffix, n.ctx), n)
+                return n
+
+        first_iter = node.generators[0].iter  # evaluated in the enclosing scope
+        for g in node.generators:
+            g.target = R().visit(g.target)
+            g.ifs = [R().visit(x) for x in g.ifs]
+            if g is not node.generators[0]:
+                g.iter = R().visit(g.iter)
+        node.generators[0].iter = first_iter
+        if isinstance(node, ast.DictComp):
+            node.key = R().visit(node.key)
+            node.value = R().visit(node.value)
+        else:
+            node.elt = R().visit(node.elt)
+        return node
+
+    visit_ListComp = visit_SetComp = visit_DictComp = visit_GeneratorExp = _comp
+
+
 def _pure_arg(e: ast.expr) -> bool:
     """Cheap and side-effect free to duplicate: names, attribute chains, constants."""
     while isinstance(e, ast.Attribute):
@@ -152,86 +208,158 @@ def _pure_arg(e: ast.expr) -> bool:
 
 
 class Helper:
-    def __init__(self, fn: ast.FunctionDef, params: list[str], tree: list[ast.stmt], expr: ast.expr | None, owner: str | None):
-        self.fn, self.params, self.tree, self.expr, self.owner = fn, params, tree, expr, owner
+    def __init__(self, fn, kind, recv, params, tree, expr, owner, module):
+        self.fn, self.kind, self.recv, self.params, self.tree, self.expr, self.owner, self.module = fn, kind, recv, params, tree, expr, owner, module
 
 
-def _collect_helpers(module_rel: str, tree: ast.Module) -> dict[tuple[str | None, str], Helper]:
+class _Package:
+    """Package-wide index used to resolve helper calls: classes by (module, name), their bases, the new helpers."""
+
+    def __init__(self, trees: dict[str, ast.Module]):
+        self.trees = trees
+        self.classes: dict[tuple[str, str], ast.ClassDef] = {}
+        self.by_name: dict[str, list[tuple[str, str]]] = {}
+        self.methods: dict[tuple[str, str, str], Helper] = {}
+        self.functions: dict[tuple[str, str], Helper] = {}
+        self.properties: dict[str, list[Helper]] = {}
+        self.attr_names: dict[str, int] = {}
+        for rel, tree in trees.items():
+            for node in tree.body:
+                if isinstance(node, ast.ClassDef):
+                    self.classes[(rel, node.name)] = node
+                    self.by_name.setdefault(node.name, []).append((rel, node.name))
+                    for s in node.body:
+                        for nm in self._defined(s):
+                            self.attr_names[nm] = self.attr_names.get(nm, 0) + 1
+        self.base_attrs = {q.split("::", 1)[1].split(".")[-1] for q in baseline() if "::" in q}
+
+    @staticmethod
+    def _defined(s: ast.stmt) -> list[str]:
+        if isinstance(s, (ast.FunctionDef, ast.AsyncFunctionDef, ast.ClassDef)):
+            return [s.name]
+        if isinstance(s, ast.AnnAssign) and isinstance(s.target, ast.Name):
+            return [s.target.id]
+        if isinstance(s, ast.Assign):
+            return [t.id for t in s.targets if isinstance(t, ast.Name)]
+        return []
+
+    def resolve_class(self, rel: str, name: str) -> tuple[str, str] | None:
+        if (rel, name) in self.classes:
+            return (rel, name)
+        c = self.by_name.get(name, [])
+        return c[0] if len(c) == 1 else None
+
+    def lineage(self, key: tuple[str, str]) -> list[tuple[str, str]]:
+        out, todo = [], [key]
+        while todo:
+            k = todo.pop(0)
+            if k in out or k not in self.classes:
+                continue
+            out.append(k)
+            for b in self.classes[k].bases:
+                e = b.value if isinstance(b, ast.Subscript) else b
+                nm = e.id if isinstance(e, ast.Name) else e.attr if isinstance(e, ast.Attribute) else None
+                if nm:
+                    r = self.resolve_class(k[0], nm)
+                    if r:
+                        todo.append(r)
+        return out
+
+    def method(self, cls_key: tuple[str, str] | None, name: str) -> Helper | None:
+        if cls_key is None:
+            return None
+        for k in self.lineage(cls_key):
+            # the first class in the lineage that defines the name decides (an old, baseline definition hides a new one)
+            node = self.classes[k]
+            if any(name in self._defined(s) for s in node.body):
+                return self.methods.get((k[0], k[1], name))
+        return None
+
+    def function(self, rel: str, name: str) -> Helper | None:
+        h = self.functions.get((rel, name))
+        if h is not None:
+            return h
+        tree = self.trees.get(rel)
+        if tree is not None and any(name in self._defined(s) for s in tree.body):
+            return None  # a different module-level definition of that name
+        c = [v for (r, n), v in self.functions.items() if n == name]
+        return c[0] if len(c) == 1 else None
+
+
+def _collect_helpers(pkg: _Package, counter: list[int]) -> None:
     base = baseline()
-    out: dict[tuple[str | None, str], Helper] = {}
+    if not base:
+        return
 
-    def consider(fn: ast.FunctionDef, owner: str | None) -> None:
+    def consider(rel: str, fn: ast.FunctionDef, owner: str | None) -> None:
         qual = f"{owner}.{fn.name}" if owner else fn.name
-        if f"{module_rel}::{qual}" in base or not base:
+        if f"{rel}::{qual}" in base:
             return
-        if fn.name.startswith("__") or any(isinstance(d, ast.Name) and d.id in ("property", "abstractmethod") for d in fn.decorator_list):
+        deco = {d.id if isinstance(d, ast.Name) else d.attr if isinstance(d, ast.Attribute) else "?" for d in fn.decorator_list}
+        if fn.name.startswith("__") or deco - {"staticmethod", "classmethod", "property", "final"}:
             return
-        deco = {d.id for d in fn.decorator_list if isinstance(d, ast.Name)}
-        is_static = "staticmethod" in deco
-        params = _simple_params(fn, is_method=owner is not None and not is_static)
-        if params is None:
+        a = fn.args
+        if a.vararg or a.kwarg or a.kwonlyargs or a.posonlyargs or a.defaults:
             return
-        if fn.args.defaults:
-            return
+        names = [x.arg for x in a.args]
+        kind, recv = "function", None
+        if owner is not None:
+            if "staticmethod" in deco:
+                kind = "staticmethod"
+            else:
+                if not names:
+                    return
+                kind = "classmethod" if "classmethod" in deco else "property" if "property" in deco else "method"
+                recv, names = names[0], names[1:]
         body = _body(fn)
         if any(isinstance(n, (ast.Yield, ast.YieldFrom, ast.Await, ast.Global, ast.Nonlocal, ast.FunctionDef, ast.ClassDef)) for s in body for n in ast.walk(s)):
             return
         # not recursive
         if any(isinstance(n, ast.Call) and ((isinstance(n.func, ast.Attribute) and n.func.attr == fn.name) or (isinstance(n.func, ast.Name) and n.func.id == fn.name)) for s in body for n in ast.walk(s)):
             return
-        # parameters must not be re-bound in the helper
+        body = [_FreshenComprehensions(counter).visit(copy.deepcopy(s)) for s in body]
+        # parameters must not be re-bound in the helper (e.g. a loop stepping `relation = relation.target`)
         stored = {n.id for s in body for n in ast.walk(s) if isinstance(n, ast.Name) and isinstance(n.ctx, ast.Store)}
+        for s in body:
+            for n in ast.walk(s):
+                if isinstance(n, (ast.MatchAs, ast.MatchStar)) and n.name:
+                    stored.add(n.name)
+                elif isinstance(n, ast.MatchMapping) and n.rest:
+                    stored.add(n.rest)
+        if stored & (set(names) | ({recv} if recv else set())):
+            return
         tree_ = _to_tree(body)
         if tree_ is None or not _ends_closed(tree_):
             return
-        if stored & set(params):
-            # re-binding of a parameter (e.g. a loop stepping `relation = relation.target`): keep the call
-            return
-        out[(owner, fn.name)] = Helper(fn, params, tree_, _as_expression(tree_), owner)
+        h = Helper(fn, kind, recv, names, tree_, _as_expression(tree_), owner, rel)
+        if owner is None:
+            pkg.functions[(rel, fn.name)] = h
+        else:
+            if kind == "property":
+                if h.expr is None:
+                    return
+                pkg.properties.setdefault(fn.name, []).append(h)
+            pkg.methods[(rel, owner, fn.name)] = h
 
-    for node in tree.body:
-        if isinstance(node, ast.FunctionDef):
-            consider(node, None)
-        elif isinstance(node, ast.ClassDef):
-            for s in node.body:
-                if isinstance(s, ast.FunctionDef):
-                    consider(s, node.name)
-    return out
-
-
-def _match_call(call: ast.Call, owner: str | None, helpers: dict) -> Helper | None:
-    f = call.func
-    if call.keywords and any(k.arg is None for k in call.keywords):
-        return None
-    if any(isinstance(a, ast.Starred) for a in call.args):
-        return None
-    h = None
-    if isinstance(f, ast.Attribute) and isinstance(f.value, ast.Name) and f.value.id in ("self", "cls", owner or ""):
-        h = helpers.get((owner, f.attr))
-    elif isinstance(f, ast.Name):
-        h = helpers.get((None, f.id))
-    if h is None:
-        return None
-    if len(call.args) + len(call.keywords) != len(h.params):
-        return None
-    return h
-
-
-def _bind(call: ast.Call, h: Helper) -> dict[str, ast.expr] | None:
-    mapping: dict[str, ast.expr] = {}
-    for p, a in zip(h.params, call.args):
-        mapping[p] = a
-    for k in call.keywords:
-        if k.arg not in h.params or k.arg in mapping:
-            return None
-        mapping[k.arg] = k.value
-    if set(mapping) != set(h.params):
-        return None
-    return mapping
+    for rel, tree in pkg.trees.items():
+        for node in tree.body:
+            if isinstance(node, ast.FunctionDef):
+                consider(rel, node, None)
+            elif isinstance(node, ast.ClassDef):
+                for s in node.body:
+                    if isinstance(s, ast.FunctionDef):
+                        consider(rel, s, node.name)
 
 
 def _rename_locals(stmts: list[ast.stmt], params: set[str], suffix: str) -> list[ast.stmt]:
+    stmts = [copy.deepcopy(s) for s in stmts]
     stored = {n.id for s in stmts for n in ast.walk(s) if isinstance(n, ast.Name) and isinstance(n.ctx, ast.Store)}
+    for s in stmts:
+        for n in ast.walk(s):
+            if isinstance(n, (ast.MatchAs, ast.MatchStar)) and n.name:
+                stored.add(n.name)
+            elif isinstance(n, ast.MatchMapping) and n.rest:
+                stored.add(n.rest)
     stored -= params
 
     class R(ast.NodeTransformer):
@@ -240,51 +368,130 @@ def _rename_locals(stmts: list[ast.stmt], params: set[str], suffix: str) -> list
                 return ast.copy_location(ast.Name(f"{node.id}{suffix}", node.ctx), node)
             return node
 
-    return [R().visit(copy.deepcopy(s)) for s in stmts]
+        def visit_MatchAs(self, node):
+            self.generic_visit(node)
+            if node.name in stored:
+                node.name = f"{node.name}{suffix}"
+            return node
+
+        def visit_MatchStar(self, node):
+            if node.name in stored:
+                node.name = f"{node.name}{suffix}"
+            return node
+
+        def visit_MatchMapping(self, node):
+            self.generic_visit(node)
+            if node.rest in stored:
+                node.rest = f"{node.rest}{suffix}"
+            return node
+
+    return [R().visit(s) for s in stmts]
 
 
 class _Inliner(ast.NodeTransformer):
-    def __init__(self, owner: str | None, helpers: dict, counter: list[int]):
-        self.owner, self.helpers, self.counter = owner, helpers, counter
+    def __init__(self, pkg: _Package, rel: str, owner: str | None, counter: list[int], in_classmethod: bool = False):
+        self.pkg, self.rel, self.owner, self.counter = pkg, rel, owner, counter
+        self.cls_key = (rel, owner) if owner else None
         self.changed = 0
 
-    # expression-level
+    # ---- resolution
+    def _resolve(self, call: ast.Call) -> tuple[Helper, dict[str, ast.expr]] | None:
+        """The helper a call denotes and the substitution for its receiver, if it can be told from the syntax."""
+        f = call.func
+        if any(k.arg is None for k in call.keywords) or any(isinstance(a, ast.Starred) for a in call.args):
+            return None
+        h, recv_map = None, {}
+        if isinstance(f, ast.Attribute) and isinstance(f.value, ast.Name):
+            base = f.value.id
+            if base in ("self", "cls") and self.cls_key is not None:
+                h = self.pkg.method(self.cls_key, f.attr)
+                if h is not None and h.kind == "property":
+                    return None
+                if h is not None and h.recv is not None:
+                    if h.kind == "classmethod" and base == "self":
+                        recv_map[h.recv] = ast.Call(func=ast.Name("type", ast.Load()), args=[ast.Name("self", ast.Load())], keywords=[])
+                    elif h.kind == "method" and base == "cls":
+                        return None
+                    else:
+                        recv_map[h.recv] = ast.Name(base, ast.Load())
+            else:
+                ck = self.pkg.resolve_class(self.rel, base)
+                if ck is not None:
+                    h = self.pkg.method(ck, f.attr)
+                    if h is not None and h.kind not in ("classmethod", "staticmethod"):
+                        return None
+                    if h is not None and h.recv is not None:
+                        recv_map[h.recv] = ast.Name(base, ast.Load())
+        elif isinstance(f, ast.Name):
+            h = self.pkg.function(self.rel, f.id)
+        if h is None or len(call.args) + len(call.keywords) != len(h.params):
+            return None
+        mapping: dict[str, ast.expr] = dict(recv_map)
+        for p, a in zip(h.params, call.args):
+            mapping[p] = a
+        for k in call.keywords:
+            if k.arg not in h.params or k.arg in mapping:
+                return None
+            mapping[k.arg] = k.value
+        if set(mapping) != set(h.params) | set(recv_map):
+            return None
+        return h, mapping
+
+    # ---- expression-level
     def visit_Call(self, node):
         self.generic_visit(node)
-        h = _match_call(node, self.owner, self.helpers)
-        if h is None or h.expr is None:
+        r = self._resolve(node)
+        if r is None or r[0].expr is None:
             return node
-        mapping = _bind(node, h)
-        if mapping is None or not all(_pure_arg(a) for a in mapping.values()):
-            # an argument with effects may only be substituted if the parameter is used exactly once
-            if mapping is None:
-                return node
-            uses = {p: sum(1 for n in ast.walk(h.expr) if isinstance(n, ast.Name) and n.id == p) for p in h.params}
-            if any(not _pure_arg(a) and uses.get(p, 0) != 1 for p, a in mapping.items()):
-                return node
+        h, mapping = r
+        uses = {p: sum(1 for n in ast.walk(h.expr) if isinstance(n, ast.Name) and n.id == p) for p in mapping}
+        # an argument with effects may only be substituted if the parameter is used exactly once
+        if any(not _pure_arg(a) and uses.get(p, 0) != 1 for p, a in mapping.items()):
+            return node
         self.changed += 1
         new = _Subst(mapping).visit(copy.deepcopy(h.expr))
         return ast.copy_location(new, node)
 
+    def visit_Attribute(self, node):
+        self.generic_visit(node)
+        if not isinstance(node.ctx, ast.Load):
+            return node
+        cands = self.pkg.properties.get(node.attr)
+        if not cands:
+            return node
+        h = None
+        if isinstance(node.value, ast.Name) and node.value.id == "self" and self.cls_key is not None:
+            m = self.pkg.method(self.cls_key, node.attr)
+            if m is not None and m.kind == "property":
+                h = m
+        if h is None and len(cands) == 1 and self.pkg.attr_names.get(node.attr, 0) == 1 and node.attr not in self.pkg.base_attrs and _pure_arg(node.value):
+            # `<expr>.<new property>`: the name denotes that one property everywhere in the package
+            if not (isinstance(node.value, ast.Name) and node.value.id == "self" and self.cls_key is not None and self.pkg.method(self.cls_key, node.attr) is None and False):
+                h = cands[0]
+        if h is None or h.expr is None or not _pure_arg(node.value):
+            return node
+        self.changed += 1
+        new = _Subst({h.recv: node.value}).visit(copy.deepcopy(h.expr))
+        return ast.copy_location(new, node)
+
+    # ---- statement-level
     def _inline_stmt(self, call: ast.Call, on_return) -> list[ast.stmt] | None:
-        h = _match_call(call, self.owner, self.helpers)
-        if h is None or h.expr is not None:
+        r = self._resolve(call)
+        if r is None or r[0].expr is not None:
             return None
-        mapping = _bind(call, h)
-        if mapping is None:
-            return None
+        h, mapping = r
         self.counter[0] += 1
         suffix = f"__h{self.counter[0]}"
         pre: list[ast.stmt] = []
         subst: dict[str, ast.expr] = {}
         for p, a in mapping.items():
-            if _pure_arg(a):
+            if _pure_arg(a) or (isinstance(a, ast.Call) and isinstance(a.func, ast.Name) and a.func.id == "type"):
                 subst[p] = a
             else:
                 tmp = f"{p}{suffix}"
                 pre.append(ast.copy_location(ast.Assign(targets=[ast.Name(tmp, ast.Store())], value=a, lineno=call.lineno), call))
                 subst[p] = ast.Name(tmp, ast.Load())
-        body = _rename_locals(h.tree, set(h.params), suffix)
+        body = _rename_locals(h.tree, set(mapping), suffix)
         body = [_Subst(subst).visit(s) for s in body]
 
         def fix(stmts: list[ast.stmt]) -> list[ast.stmt]:
@@ -293,8 +500,12 @@ class _Inliner(ast.NodeTransformer):
                 if isinstance(s, ast.Return):
                     out.extend(on_return(s))
                 elif isinstance(s, ast.If):
-                    s.body = fix(s.body)
+                    s.body = fix(s.body) or [ast.copy_location(ast.Pass(), s)]
                     s.orelse = fix(s.orelse)
+                    out.append(s)
+                elif isinstance(s, ast.Match):
+                    for c in s.cases:
+                        c.body = fix(c.body) or [ast.copy_location(ast.Pass(), s)]
                     out.append(s)
                 else:
                     out.append(s)
@@ -306,7 +517,88 @@ class _Inliner(ast.NodeTransformer):
             ast.fix_missing_locations(ast.copy_location(s, call) if not hasattr(s, "lineno") else s)
         return res
 
+    # ---- hoisting a nested statement-helper call out of a simple statement
+    def _hoistable(self, root: ast.expr) -> ast.Call | None:
+        """A statement-helper call nested in ``root`` that is evaluated unconditionally and before anything with
+        effects, so that ``tmp = call; ...tmp...`` is the same computation."""
+
+        def pure(e) -> bool:
+            return _pure_arg(e) if isinstance(e, ast.expr) else True
+
+        def find(e: ast.expr) -> tuple[ast.Call | None, bool]:
+            """(call found, everything evaluated so far is pure)"""
+            if isinstance(e, ast.Call):
+                r = self._resolve(e)
+                if r is not None and r[0].expr is None and e is not root:
+                    # its own arguments are evaluated before it, whatever they are: they move with it
+                    return e, True
+            if pure(e):
+                return None, True
+            kids: list[ast.expr] = []
+            if isinstance(e, ast.Call):
+                kids = [e.func] + list(e.args) + [k.value for k in e.keywords]
+            elif isinstance(e, ast.Attribute):
+                kids = [e.value]
+            elif isinstance(e, ast.Subscript):
+                kids = [e.value, e.slice]
+            elif isinstance(e, ast.BinOp):
+                kids = [e.left, e.right]
+            elif isinstance(e, ast.UnaryOp):
+                kids = [e.operand]
+            elif isinstance(e, ast.Compare):
+                kids = [e.left, e.comparators[0]]
+            elif isinstance(e, (ast.Tuple, ast.List, ast.Set)):
+                kids = list(e.elts)
+            elif isinstance(e, ast.Starred):
+                kids = [e.value]
+            elif isinstance(e, ast.BoolOp):
+                kids = [e.values[0]]
+            elif isinstance(e, ast.IfExp):
+                kids = [e.test]
+            elif isinstance(e, ast.NamedExpr):
+                kids = [e.value]
+            else:
+                return None, False
+            for k in kids:
+                c, ok = find(k)
+                if c is not None:
+                    return c, True
+                if not ok:
+                    return None, False
+            # all evaluated children pure, but the node itself (a call, an operator) may have effects
+            return None, False
+
+        c, _ = find(root)
+        return c
+
+    def _hoist(self, s: ast.stmt) -> list[ast.stmt] | None:
+        value = getattr(s, "value", None)
+        if not isinstance(s, (ast.Return, ast.Assign, ast.AnnAssign, ast.Expr)) or value is None:
+            return None
+        call = self._hoistable(value)
+        if call is None:
+            return None
+        self.counter[0] += 1
+        tmp = f"hoisted__h{self.counter[0]}"
+
+        class R(ast.NodeTransformer):
+            def visit_Call(self, node):
+                if node is call:
+                    return ast.copy_location(ast.Name(tmp, ast.Load()), node)
+                self.generic_visit(node)
+                return node
+
+        assign = ast.copy_location(ast.Assign(targets=[ast.Name(tmp, ast.Store())], value=call, lineno=s.lineno), s)
+        s.value = R().visit(value)
+        ast.fix_missing_locations(assign)
+        return [assign, s]
+
     def _visit_block(self, stmts: list[ast.stmt]) -> list[ast.stmt]:
+        hoisted: list[ast.stmt] = []
+        for s in stmts:
+            h = self._hoist(s)
+            hoisted.extend(h if h is not None else [s])
+        stmts = hoisted
         out: list[ast.stmt] = []
         for s in stmts:
             rep = None
@@ -318,6 +610,21 @@ class _Inliner(ast.NodeTransformer):
                     s.value,
                     lambda r, tgt=tgt, s=s: [ast.copy_location(ast.Assign(targets=[copy.deepcopy(tgt)], value=r.value or ast.Constant(None), lineno=s.lineno), s)],
                 )
+            elif isinstance(s, ast.AnnAssign) and s.value is not None and isinstance(s.value, ast.Call) and isinstance(s.target, ast.Name):
+                tgt = s.target
+                rep = self._inline_stmt(
+                    s.value,
+                    lambda r, tgt=tgt, s=s: [ast.copy_location(ast.Assign(targets=[copy.deepcopy(tgt)], value=r.value or ast.Constant(None), lineno=s.lineno), s)],
+                )
+            elif isinstance(s, ast.Expr) and isinstance(s.value, ast.Call):
+
+                def drop(r, s=s):
+                    v = r.value
+                    if v is None or isinstance(v, (ast.Constant, ast.Name)):
+                        return []
+                    return [ast.copy_location(ast.Expr(value=v), s)]
+
+                rep = self._inline_stmt(s.value, drop)
             if rep is not None:
                 out.extend(rep)
             else:
@@ -335,35 +642,93 @@ class _Inliner(ast.NodeTransformer):
             v = getattr(node, field, None)
             if isinstance(v, list) and v and isinstance(v[0], ast.stmt) and not isinstance(node, (ast.FunctionDef, ast.ClassDef, ast.Module)):
                 setattr(node, field, self._visit_block(v))
+        if isinstance(node, ast.Match):
+            for c in node.cases:
+                c.body = self._visit_block(c.body)
         return node
 
 
-def normalize_module(module_rel: str, tree: ast.Module) -> int:
-    """Inline helpers that are not in the baseline.  Returns the number of call sites rewritten."""
-    helpers = _collect_helpers(module_rel, tree)
-    if not helpers:
-        return 0
-    total = 0
+def normalize_package(trees: dict[str, ast.Module]) -> int:
+    """Inline helpers that are not in the baseline, package-wide.  Returns the number of call sites rewritten."""
     counter = [0]
-    for _ in range(3):  # helpers may call other new helpers
+    pkg = _Package(trees)
+    _collect_helpers(pkg, counter)
+    if not pkg.methods and not pkg.functions:
+        return 0
+    helper_nodes = {id(h.fn) for h in list(pkg.methods.values()) + list(pkg.functions.values())}
+    total = 0
+    for _ in range(4):  # helpers may call other new helpers: inline inside helper bodies first
         changed = 0
-        for node in tree.body:
-            if isinstance(node, ast.ClassDef):
-                inl = _Inliner(node.name, helpers, counter)
-                for i, s in enumerate(node.body):
-                    if isinstance(s, ast.FunctionDef) and (node.name, s.name) not in helpers:
-                        node.body[i] = inl.visit(s)
+        for h in list(pkg.methods.values()) + list(pkg.functions.values()):
+            inl = _Inliner(pkg, h.module, h.owner, counter)
+            h.tree = inl._visit_block([inl.visit(s) for s in h.tree])
+            if inl.changed:
                 changed += inl.changed
-            elif isinstance(node, ast.FunctionDef) and (None, node.name) not in helpers:
-                inl = _Inliner(None, helpers, counter)
-                idx = tree.body.index(node)
-                tree.body[idx] = inl.visit(node)
-                changed += inl.changed
-        total += changed
+                tree_ = _to_tree(h.tree)
+                if tree_ is not None:
+                    h.tree = tree_
+                h.expr = _as_expression(h.tree)
         if not changed:
             break
-    ast.fix_missing_locations(tree)
+    for rel, tree in trees.items():
+        for node in tree.body:
+            if isinstance(node, ast.ClassDef):
+                inl = _Inliner(pkg, rel, node.name, counter)
+                for i, s in enumerate(node.body):
+                    if isinstance(s, ast.FunctionDef) and id(s) not in helper_nodes:
+                        node.body[i] = inl.visit(s)
+                total += inl.changed
+            elif isinstance(node, ast.FunctionDef) and id(node) not in helper_nodes:
+                inl = _Inliner(pkg, rel, None, counter)
+                idx = tree.body.index(node)
+                tree.body[idx] = inl.visit(node)
+                total += inl.changed
+        ast.fix_missing_locations(tree)
+    _drop_dead_helpers(pkg)
     return total
+
+
+def _drop_dead_helpers(pkg: _Package) -> None:
+    """A new helper all of whose uses were inlined is dead code in the model's copy: its body is analysed in the
+    context of its callers, so who-may-call rules must not see it a second time as a free-standing function."""
+    helpers = list(pkg.methods.values()) + list(pkg.functions.values())
+    names = {h.fn.name for h in helpers}
+    if not names:
+        return
+    refs: dict[str, int] = {n: 0 for n in names}
+    for tree in pkg.trees.values():
+        for n in ast.walk(tree):
+            if isinstance(n, ast.Attribute) and n.attr in refs:
+                refs[n.attr] += 1
+            elif isinstance(n, ast.Name) and n.id in refs:
+                refs[n.id] += 1
+            elif isinstance(n, ast.alias) and n.name in refs:
+                refs[n.name] += 1
+            elif isinstance(n, ast.Constant) and isinstance(n.value, str) and n.value in refs:
+                refs[n.value] += 1  # __all__, getattr
+    for h in helpers:
+        # references from inside other dead helpers do not count once those are gone; iterate to a fixed point below
+        pass
+    changed = True
+    alive = {id(h.fn): h for h in helpers}
+    while changed:
+        changed = False
+        for h in list(alive.values()):
+            own = sum(1 for n in ast.walk(h.fn) if (isinstance(n, ast.Attribute) and n.attr == h.fn.name) or (isinstance(n, ast.Name) and n.id == h.fn.name))
+            if refs[h.fn.name] - own > 0:
+                continue
+            container = pkg.classes[(h.module, h.owner)].body if h.owner else pkg.trees[h.module].body
+            if h.fn in container:
+                # discount what this helper's own body referenced
+                for n in ast.walk(h.fn):
+                    nm = n.attr if isinstance(n, ast.Attribute) else n.id if isinstance(n, ast.Name) else None
+                    if nm in refs and nm != h.fn.name:
+                        refs[nm] -= 1
+                container.remove(h.fn)
+                if not container:
+                    container.append(ast.Pass())
+                del alive[id(h.fn)]
+                changed = True
 
 
 # ------------------------------------------------------------------------------------------------------------------
@@ -545,6 +910,183 @@ class _IsinstanceToMatch(ast.NodeTransformer):
 
 def isinstance_to_match(tree: ast.Module, closed: set[str]) -> int:
     t = _IsinstanceToMatch(closed)
+    t.visit(tree)
+    ast.fix_missing_locations(tree)
+    return t.changed
+
+
+# ------------------------------------------------------------------------------------------------------------------
+# N4: leading attribute aliases of a case arm  ->  keyword captures
+#
+# ``case K(): a = subject.x; b = subject.y; ...`` binds exactly what ``case K(x=a, y=b): ...`` binds (a class pattern
+# keyword is an attribute lookup on the subject).  The package itself writes the capture form and the rules resolve
+# names through captures, so arms written with explicit aliases (typically after "extract method") are put back.
+
+
+class _AliasesToCaptures(ast.NodeTransformer):
+    def __init__(self):
+        self.changed = 0
+
+    def visit_Match(self, node: ast.Match):
+        self.generic_visit(node)
+        if not _pure_subject(node.subject):
+            return node
+        subj = ast.unparse(node.subject)
+        for c in node.cases:
+            pat = c.pattern
+            if isinstance(pat, ast.MatchAs) and isinstance(pat.pattern, ast.MatchClass):
+                pat = pat.pattern
+            if not isinstance(pat, ast.MatchClass) or pat.patterns:
+                continue
+            captured = {n.name for n in ast.walk(c.pattern) if isinstance(n, (ast.MatchAs, ast.MatchStar)) and n.name}
+            guard_names = {n.id for n in ast.walk(c.guard) if isinstance(n, ast.Name)} if c.guard is not None else set()
+            moved = 0
+            for s in list(c.body):
+                tgt = val = None
+                if isinstance(s, ast.Assign) and len(s.targets) == 1 and isinstance(s.targets[0], ast.Name):
+                    tgt, val = s.targets[0].id, s.value
+                elif isinstance(s, ast.AnnAssign) and isinstance(s.target, ast.Name) and s.value is not None:
+                    tgt, val = s.target.id, s.value
+                if (
+                    tgt is None
+                    or not isinstance(val, ast.Attribute)
+                    or ast.unparse(val.value) != subj
+                    or val.attr in pat.kwd_attrs
+                    or tgt in captured
+                    or tgt in guard_names
+                    or tgt == subj
+                    or len(c.body) - moved <= 1
+                ):
+                    break
+                pat.kwd_attrs.append(val.attr)
+                pat.kwd_patterns.append(ast.MatchAs(pattern=None, name=tgt))
+                captured.add(tgt)
+                c.body.remove(s)
+                moved += 1
+            self.changed += moved
+        return node
+
+
+def aliases_to_captures(tree: ast.Module) -> int:
+    t = _AliasesToCaptures()
+    t.visit(tree)
+    ast.fix_missing_locations(tree)
+    return t.changed
+
+
+# ------------------------------------------------------------------------------------------------------------------
+# N5: accumulator loops  ->  comprehensions
+#
+# ``acc = {}`` / ``for T in IT: [tmp = e]* acc[K] = V``  is  ``acc = {K: V for T in IT}``; likewise ``[]``+``append``
+# and ``set()``+``add``, each optionally under one ``if``.  The package writes the comprehension form.
+
+
+def _empty_container(e: ast.expr) -> str | None:
+    if isinstance(e, ast.Dict) and not e.keys:
+        return "dict"
+    if isinstance(e, ast.List) and not e.elts:
+        return "list"
+    if isinstance(e, ast.Call) and isinstance(e.func, ast.Name) and not e.args and not e.keywords and e.func.id in ("dict", "list", "set"):
+        return e.func.id
+    return None
+
+
+class _LoopsToComprehensions(ast.NodeTransformer):
+    def __init__(self):
+        self.changed = 0
+
+    def _try(self, init: ast.stmt, loop: ast.stmt) -> ast.stmt | None:
+        name = kind = None
+        if isinstance(init, ast.Assign) and len(init.targets) == 1 and isinstance(init.targets[0], ast.Name):
+            name, kind = init.targets[0].id, _empty_container(init.value)
+        elif isinstance(init, ast.AnnAssign) and isinstance(init.target, ast.Name) and init.value is not None:
+            name, kind = init.target.id, _empty_container(init.value)
+        if name is None or kind is None or not isinstance(loop, ast.For) or loop.orelse:
+            return None
+        body = list(loop.body)
+        conds: list[ast.expr] = []
+        if len(body) == 1 and isinstance(body[0], ast.If) and not body[0].orelse:
+            conds.append(body[0].test)
+            body = list(body[0].body)
+        temps: dict[str, ast.expr] = {}
+        for s in body[:-1]:
+            if isinstance(s, ast.Assign) and len(s.targets) == 1 and isinstance(s.targets[0], ast.Name) and s.targets[0].id not in temps:
+                temps[s.targets[0].id] = _Subst(temps).visit(copy.deepcopy(s.value))
+            else:
+                return None
+        if not body:
+            return None
+        last = body[-1]
+        comp: ast.expr | None = None
+        gen_names = {n.id for n in ast.walk(loop.target) if isinstance(n, ast.Name)}
+        if name in gen_names or name in {n.id for n in ast.walk(loop.iter) if isinstance(n, ast.Name)}:
+            return None
+
+        def mentions_acc(e: ast.AST) -> bool:
+            return any(isinstance(n, ast.Name) and n.id == name for n in ast.walk(e))
+
+        sub = _Subst(temps)
+        if (
+            kind == "dict"
+            and isinstance(last, ast.Assign)
+            and len(last.targets) == 1
+            and isinstance(last.targets[0], ast.Subscript)
+            and isinstance(last.targets[0].value, ast.Name)
+            and last.targets[0].value.id == name
+        ):
+            k, v = sub.visit(copy.deepcopy(last.targets[0].slice)), sub.visit(copy.deepcopy(last.value))
+            if mentions_acc(k) or mentions_acc(v):
+                return None
+            comp = ast.DictComp(key=k, value=v, generators=[ast.comprehension(target=loop.target, iter=loop.iter, ifs=conds, is_async=0)])
+        elif (
+            isinstance(last, ast.Expr)
+            and isinstance(last.value, ast.Call)
+            and isinstance(last.value.func, ast.Attribute)
+            and isinstance(last.value.func.value, ast.Name)
+            and last.value.func.value.id == name
+            and len(last.value.args) == 1
+            and not last.value.keywords
+            and (kind, last.value.func.attr) in (("list", "append"), ("set", "add"))
+        ):
+            e = sub.visit(copy.deepcopy(last.value.args[0]))
+            if mentions_acc(e):
+                return None
+            gens = [ast.comprehension(target=loop.target, iter=loop.iter, ifs=conds, is_async=0)]
+            comp = ast.ListComp(elt=e, generators=gens) if kind == "list" else ast.SetComp(elt=e, generators=gens)
+        if comp is None or any(mentions_acc(c) for c in conds) or any(mentions_acc(t) for t in temps.values()):
+            return None
+        new = ast.Assign(targets=[ast.Name(name, ast.Store())], value=comp, lineno=init.lineno)
+        return ast.copy_location(new, init)
+
+    def _block(self, stmts: list[ast.stmt]) -> list[ast.stmt]:
+        out: list[ast.stmt] = []
+        i = 0
+        while i < len(stmts):
+            if i + 1 < len(stmts):
+                r = self._try(stmts[i], stmts[i + 1])
+                if r is not None:
+                    out.append(r)
+                    self.changed += 1
+                    i += 2
+                    continue
+            out.append(stmts[i])
+            i += 1
+        return out
+
+    def generic_visit(self, node):
+        super().generic_visit(node)
+        for field in ("body", "orelse", "finalbody"):
+            v = getattr(node, field, None)
+            if isinstance(v, list) and v and isinstance(v[0], ast.stmt):
+                setattr(node, field, self._block(v))
+        if isinstance(node, ast.Match):
+            for c in node.cases:
+                c.body = self._block(c.body)
+        return node
+
+
+def loops_to_comprehensions(tree: ast.Module) -> int:
+    t = _LoopsToComprehensions()
     t.visit(tree)
     ast.fix_missing_locations(tree)
     return t.changed
